@@ -1305,7 +1305,7 @@ func (t *tScreen) buildAcsMap() {
 	t.acs = make(map[rune]string)
 	for len(acsstr) > 2 {
 		srcv := acsstr[0]
-		dstv := string(acsstr[1])
+		dstv := acsstr[1:2] // the byte itself, not the UTF-8 encoding of its value
 		if r, ok := vtACSNames[srcv]; ok {
 			t.acs[r] = t.ti.EnterAcs + dstv + t.ti.ExitAcs
 		}
